@@ -423,6 +423,45 @@ def py_int_of_str(p, s):
     return mk_int(z3.If(neg, -acc, acc))
 
 
+def py_int_of_hex(p, s):
+    """int(str, 16) for ASCII hex digits with optional sign / 0x prefix is not modelled beyond
+    plain digits: plain hex digits only (what the firmware payload parsers use)."""
+    s = expand(p, lift_str(s))
+    if not s.cs:
+        raise prog(ValueError("invalid literal for int() with base 16: ''"))
+    ok = []
+    acc = z3.IntVal(0)
+    for c in s.cs:
+        c = _lit(c)
+        is_d = z3.And(c >= 48, c <= 57)
+        is_u = z3.And(c >= 65, c <= 70)
+        is_l = z3.And(c >= 97, c <= 102)
+        ok.append(z3.Or(is_d, is_u, is_l))
+        acc = 16 * acc + z3.If(is_d, c - 48, z3.If(is_u, c - 55, c - 87))
+    if not p.branch(z3.And(ok)):
+        # signs, prefixes, underscores and whitespace are legal for int(x, 16) but not modelled
+        raise Cut("int(text, 16) on text that is not plain hex digits")
+    return mk_int(acc)
+
+
+def s_case(p, s, name):
+    """str.lower / str.upper: exact for ASCII; other symbolic characters are outside the model."""
+    s = expand(p, s)
+    out = []
+    for c in s.cs:
+        if isinstance(c, int):
+            t = getattr(chr(c), name)()
+            out.extend(ord(x) for x in t)
+            continue
+        if not p.branch(c < 128):
+            raise Cut(f"str.{name} of a non-ASCII symbolic character")
+        if name == "lower":
+            out.append(z3.If(z3.And(c >= 65, c <= 90), c + 32, c))
+        else:
+            out.append(z3.If(z3.And(c >= 97, c <= 122), c - 32, c))
+    return SStr(out)
+
+
 # float ----------------------------------------------------------------------------------------
 _F_DEAD = 99
 _WORDS = {"inf": 20, "nan": 40}
